@@ -46,11 +46,13 @@ def last_ps(doc, idx=-1):
 
 def run(res, tier):
     res.assumptions += [
-        "horizon 16 steps (8 per synchrotron period: step counts exact in single precision); all split points 1..15",
+        "horizon 16 steps, thorough tier 32 (8 per synchrotron period: step counts exact in single precision); all split points",
         "bit-identity demanded for RenormalizeCharge<0; otherwise the continued run renormalises on a different schedule: difference bounded by (|1-Q|+1e-6)*max f with Q the recorded charge (twice that with an impedance: amplitude and wake kick both scale with the charge)",
         "same FFTW wisdom for all runs (warm-up); start state = asymmetric off-centre blob loaded from a start file",
         "RF modulation / noise are not part of the lattice (the modulation phase is a function of the time since program start, which a results file does not carry)",
         "a start file of another grid size is not a C11 refusal case (not listed in the statement); it is covered as a memory-safety case by C17"]
+    global TOTAL
+    TOTAL = 32 if vlib.deep(tier) else 16        # thorough: every split point of a 32-step run
     exe = pl.build.build_bin("plain")
     ns = [16, 24] if vlib.wide(tier) else [16]
     imps = ["none", "collimator"]
